@@ -212,6 +212,7 @@ def check_mode(p):
             hit = [x for x in b if key in x]
             if hit and o["ok"]:
                 o["ok"], o["detail"] = False, hit[0][:300]
+                o["witness"] = dict(n_params=n, population_size=P, fitness_sequence=[repr(x) for x in fbs], maximize=mx)
     print(json.dumps(dict(obligations=list(obs.values()), cases=cases, note="fitness sequences with NaN / +-inf / ties, minimise and maximise")))
 
 
